@@ -68,7 +68,7 @@ reg("C05", "exploration",
     "merged, ids right below / across the end of the z/x/y id domain; the sync stream parser under short reads; two directories "
     "stored back to back in one stream parsed without seeking in between; a third of the parses preceded by failed parses of cut / "
     "damaged copies",
-    require={"any": {"encode_matches_spec": 1000, "foreign_decode_ok": 1000, "async_twins": 50,
+    require={"any": {"back_to_back_parses_ok": 1000, "stream_parser_short_reads_ok": 500, "parses_preceded_by_failed_parses": 10000, "encode_matches_spec": 1000, "foreign_decode_ok": 1000, "async_twins": 50,
                      "lists_whose_plain_encoding_starts_with_a_codec_magic": 4, "regular_long_lists": 4}},
     phases=with_layers("miri"))
 
@@ -79,9 +79,9 @@ reg("C07", "exploration",
     "archives holding the aliased tile, the id the library itself computes, 0 and ids an implementation might use as an 'invalid' "
     "sentinel (u64::MAX, u64::MAX-1, 2^63, i64::MAX, u32::MAX, first id of zoom 32), the in-grid alias being looked up first on the same "
     "archive; zoom-block edges walked upwards AND downwards, jumps between distant zooms, rejected ids directly followed by ids of the "
-    "highest zooms (distinct by fingerprint of (z,x,y) / id; "
+    "highest zooms; eight threads converting at once, each in bursts of its own ids (distinct by fingerprint of (z,x,y) / id; "
     "non-trivial = out-of-grid or z>=1)",
-    require={"any": {"sweep_ids": 80000000, "adjacency_checked": 80000000, "lookup_out_of_grid_none": 1000,
+    require={"any": {"conversions_from_concurrent_threads_ok": 60000, "sweep_ids": 80000000, "adjacency_checked": 80000000, "lookup_out_of_grid_none": 1000,
                      "lookup_in_grid_ok": 100, "ids_rejected": 1000, "children_blocks_checked": 1000}},
     exhaustive_key=None)
 
@@ -119,7 +119,7 @@ reg("C08", "exploration",
     "retargeting incl. cycles, stream corruption, wrong codec, stale headers, truncation), splices and bursts. Distinct by "
     "fingerprint of the input bytes; all hostile inputs are non-trivial. Inputs whose directories expand past 2e6 tiles / 1e5 "
     "directory visits (lenient estimator mirroring the library's decoding) are outside the claim and only counted.",
-    require={"any": {"open.ok": 500, "open.err": 5000, "rewrite.ok": 100, "lookup.ok": 1000, "inputs_with_pointer_cycle": 10,
+    require={"any": {"class.tiny-metadata.inputs": 1000, "class.non-object-metadata.inputs": 100, "open_behind_prefix.returned": 5000, "open.ok": 500, "open.err": 5000, "rewrite.ok": 100, "lookup.ok": 1000, "inputs_with_pointer_cycle": 10,
                      "class.entry-count.inputs": 16, "class.self-pointer.inputs": 4, "class.pointer-chain.inputs": 20,
                      "class.prefix.inputs": 500, "class.substitution.inputs": 3000, "open_async.returned": 1000,
                      "class.declared-content-size.inputs": 10, "class.oversized-length.inputs": 12}},
@@ -135,7 +135,9 @@ reg("C15", "fault_enumeration",
     "reports success must return the tile's bytes) and the archive writers behind std / futures BufWriter (a failure reaches the "
     "library only at a flush or seek, possibly its last operation; the stream is handed back unflushed), and re-writes of an OPENED "
     "archive with faults in the destination or in the source reader; the error kind of the injected fault rotates over ten kinds "
-    "(all of them at k < 2); for each the "
+    "(all of them at k < 2); opens through streams with short reads (faults in the tail transfers of a directory); the async header "
+    "writer behind a buffering writer; archives holding tile ids beyond zoom 31; a fault the call issued and swallowed counts as a "
+    "violation even when the returned value is complete; for each the "
     "fault-free run defines N stream operations and the run in which operation k and all later ones fail is executed for every "
     "k < N (stride reported per scenario when N exceeds the tier's limit). Distinct by enumeration of (scenario,k); every case "
     "injects a fault, so all are non-trivial. Oracle: no panic, and Ok => stream image / returned value equals the fault-free one.",
@@ -150,19 +152,20 @@ reg("C18", "exploration",
     "at / beyond 2^32 (stream with a storage-less hole below), a third of the streams with short or block-aligned writes, 4 codecs, sync and async (with Pending) writers; "
     "distinct by fingerprint of (archive,P,pre-fill,api); "
     "non-trivial = P > 0. Oracle: sentinel bytes before P intact, stream[P..final position] validates with the independent reader "
-    "and addresses exactly the logical content (offsets relative to P), final position = P + archive end.",
-    require={"any": {"validated_at_nonzero_p": 100, "with_leaf_spill": 4, "async_writes": 50, "archives_above_16_mib": 1}})
+    "and addresses exactly the logical content (offsets relative to P), final position = P + archive end, nothing written behind the "
+    "archive's end (a stream that was not longer ends there; bytes of a longer pre-filled stream behind it stay as they were).",
+    require={"any": {"start_positions_at_or_beyond_4_gib": 4, "streams_with_short_writes": 30, "bytes_behind_the_archive_intact": 10, "validated_at_nonzero_p": 100, "with_leaf_spill": 4, "async_writes": 50, "archives_above_16_mib": 1}})
 
 reg("C11", "exploration",
     "cases = (archive, set of ranges): archives library-written (empty/1/small/medium/leaf-spilling) and foreign (directory depth "
     "1-3 and deeper, tile entries and leaf pointers mixed in one directory, many small leaves, single-id ranges, any layout), 4 codecs; per archive ~110 (quick) / ~260 (thorough) ranges covering all 3x3 bound kinds with endpoints "
     "steered onto 0, 1, leaf first ids +-1, run starts/ends +-1, last id +-1, u64::MAX, the literal forms ..0 ..=0 0..0 .. , "
     "inverted and empty ranges, bounds k*2^32 + d past an entry, and random ones; archives with tile ids beyond zoom 31 (up to 2^64-4), "
-    "archives whose tile data is cut off, and - without a codec - a sibling archive of identical layout opened with the same range "
-    "right before; entry points from_bytes_partially (every range) and from_reader_partially / "
+    "archives whose tile data is cut off, and - without a codec - a sibling archive of identical layout (same section offsets and "
+    "lengths, other entries) that is walked completely by range-filtered opens before this archive is opened partially; entry points from_bytes_partially (every range) and from_reader_partially / "
     "from_async_reader_partially / util::read_directories (rotating). Distinct by fingerprint of archive bytes; non-trivial = "
     "full open has >= 2 tiles. Oracle: the full open of the same bytes filtered with RangeBounds::contains.",
-    require={"any": {"ranges_equal": 5000, "ranges_selecting_strict_subset": 500, "ranges_selecting_nothing": 500,
+    require={"any": {"archives_opened_after_a_sibling_of_identical_layout": 2, "archives_with_tile_data_cut_off": 8, "ranges_equal": 5000, "ranges_selecting_strict_subset": 500, "ranges_selecting_nothing": 500,
                      "archives_with_leaves": 10, "opens_that_skipped_leaf_bytes": 20, "bound_kinds.open-excl": 100,
                      "bound_kinds.excl-incl": 100}})
 
@@ -183,11 +186,13 @@ reg("C01", "exploration",
     "before the second half is added; a tenth of the archives additionally goes through real files (File, BufWriter<File>, "
     "BufReader<File>: the file must hold exactly what an in-memory cursor receives) and a tenth is opened through a reader with short "
     "reads; a third of the writes / opens is preceded, on the same thread, by library calls that FAIL (writes into failing and too "
-    "small sinks, a refused directory, opens of cut and damaged copies of the very archive); written by the sync (4/5) or async (1/5) "
+    "small sinks, a refused directory, opens of cut and damaged copies of the very archive); tile ids up to u64::MAX (single and as the "
+    "end of a run); two archive objects on ONE shared file handle looked up alternately; tiles above 2^24 bytes still reader-backed at "
+    "write time; written by the sync (4/5) or async (1/5) "
     "writer and opened with from_bytes. "
     "Distinct by fingerprint of the logical archive; non-trivial = >=2 tiles and (duplicates or non-empty metadata). Oracle: the "
     "generator's own map + settings; every added tile fetched, ~100 absent ids probed per archive.",
-    require={"any": {"round_trips_equal": 300, "archives_with_leaf_directories": 8, "coordinate_lookups_equal": 1000,
+    require={"any": {"archives_with_tile_id_u64_max": 4, "lookups_through_a_shared_file_handle": 200, "round_trips_through_short_reads_equal": 10, "opens_preceded_by_failed_calls": 40, "file_round_trips_equal": 10, "round_trips_equal": 300, "archives_with_leaf_directories": 8, "coordinate_lookups_equal": 1000,
                      "absent_ids_probed": 10000, "codec.none": 50, "codec.gzip": 50, "codec.brotli": 50, "codec.zstd": 50,
                      "archives_built_in_two_sessions": 20, "archives_built_through_detours": 50,
                      "archives_with_leaf_at_section_offset_127": 1}},
@@ -280,7 +285,7 @@ reg("C03", "exploration",
     "placed so that it ends at the tile-data offset of the tile entry that follows its pointer (offset column 0 = contiguous with a "
     "POINTER); a fifth of the opens is preceded by failed opens of cut / damaged copies on the same thread. Distinct by fingerprint of "
     "the archive bytes; non-trivial = >= 2 entries.",
-    require={"any": {"archives_equal": 1000, "entry_maps_equal": 1000, "fixtures_equal": 3, "find_entry_probes": 2000,
+    require={"any": {"opens_preceded_by_failed_calls": 50, "archives_equal": 1000, "entry_maps_equal": 1000, "fixtures_equal": 3, "find_entry_probes": 2000,
                      "depth.3": 50, "depth.2": 50, "layouts_with_permuted_sections": 100, "layouts_with_gaps": 100,
                      "layouts_with_empty_metadata": 50, "offset_style.2": 100,
                      "layouts_with_regular_dense_directory": 8, "layouts_with_mixed_directories": 50,
@@ -299,10 +304,12 @@ reg("C04", "exploration",
     "sync/async and the 4 codecs, some starting with a bulk of 4 100-9 500 distinct tiles (leaf directories) or 65 537-70 000 tiles on "
     "consecutive ids (more than 2^16 entries) or one content on more than 2^20 consecutive ids whose first 65 540 sharers are removed "
     "again, a sixth starting from a nested archive of the independent writer (bottom-up leaves, mixed directories, any section order), "
-    "textual contents handed over as String / &str / Vec<u8>, empty adds in every Into<Vec<u8>> shape (distinct by fingerprint). After EVERY op of (a) and every 25th of (b): lookups of the id universe by "
+    "textual contents handed over as String / &str / Vec<u8>, empty adds in every Into<Vec<u8>> shape, ids at the very top of u64; "
+    "scripted histories (equal-length contents A B A A C ... on adjacent ids; root directories of exactly 16256 / 16257 / 16258 bytes) "
+    "(distinct by fingerprint). After EVERY op of (a) and every 25th of (b): lookups of the id universe by "
     "id and by coordinates, listing, count vs a BTreeMap model, plus the in-crate store report (feature verif). Evidence: "
     "transition matrix op x abstract pre-state {absent, mem-unique, mem-shared, backed}.",
-    require={"any": dict(_C04_CELLS, **{"full_state_comparisons": 50000, "exhaustive_histories": 20000,
+    require={"any": dict(_C04_CELLS, **{"scripted_histories": 16, "histories_with_root_directory_at_the_budget": 6, "histories_with_a_run_beyond_2_pow_20": 2, "histories_starting_from_a_nested_foreign_archive": 4, "full_state_comparisons": 50000, "exhaustive_histories": 20000,
                                         "histories_with_more_than_65536_entries": 2, "transition.add-empty.backed": 100,
                                         "transition.add-empty.mem-unique": 100})},
     assumptions=["the store report hook (feature verif) only reads the three internal maps"])
@@ -316,13 +323,14 @@ reg("C10", "exploration",
     "in-memory tiles; lower half first, UPPER half first, or alternating blocks of three ids, so that later adds sit in front of, behind and "
     "between reader-backed runs; some lookups before the second half), save+reopen then re-add identical bytes, detours through junk that "
     "is replaced/removed}; leaf-spilling archives WITH runs; n singles then a run with n on/next to 2^16, 2^17, 2^18; more than 2^18 "
-    "distinct contents; a run beyond 2^20; saves over a longer stale file and saves by another thread than the one that added the "
+    "distinct contents; a run beyond 2^20; a run ending on u64::MAX; a content of 2^24 bytes shared by several ids; a half added by "
+    "another thread; saves over a longer stale file and saves by another thread than the one that added the "
     "tiles; textual contents handed to add_tile as String / &str / Vec<u8> depending on the id; contents above 1 MiB; sync and async "
     "stores; 4 codecs. Distinct by fingerprint of (archive, history); non-trivial = the archive has duplicate contents. Oracle: "
     "written file parsed by the reference reader (data length = sum of distinct contents, identical content <=> identical offset, "
     "no mergeable neighbours, entry count = number of maximal runs, content counter) + store report of the builder at quiescent "
     "points (one retained copy per live content, none unreferenced).",
-    require={"any": {"archives_minimal": 800, "archives_with_duplicates": 400, "archives_with_runs": 200, "history.0": 50,
+    require={"any": {"archives_written_over_a_longer_stale_file": 50, "archives_minimal": 800, "archives_with_duplicates": 400, "archives_with_runs": 200, "history.0": 50,
                      "history.1": 50, "history.2": 50, "history.3": 50, "foreign_rewrites_minimal": 150, "archives_with_textual_contents": 50,
                      "foreign_sources_with_duplicate_contents": 100}},
     assumptions=["no two generated contents collide under the library's 64-bit content hash"])
@@ -335,12 +343,13 @@ reg("C06", "exploration",
     "under a codec); lists whose every entry has a 6-byte offset varint and id deltas up to 2^40; the same clauses through whole-archive "
     "writes at start positions {0,1,777,20 000}, half of them into a sink that accepts only part of most writes; whole archives without a "
     "codec whose single directory has 3700...4100 entries (just below / above the budget) behind a few KiB of metadata; streams that "
-    "already hold stale bytes behind the write position; lists with offsets k*2^32 off contiguous and with unmerged neighbours; initial "
+    "already hold stale bytes behind the write position; lists of 700...1025 entries made of the widest varints; a sixth of the writes "
+    "preceded by failed directory writes on the same thread; lists with offsets k*2^32 off contiguous and with unmerged neighbours; initial "
     "leaf sizes {default,1,2,7,33,4096,10^6,usize::MAX/2+1,usize::MAX}. Distinct by fingerprint of (list, codec, leaf size); "
     "non-trivial = >= 2 entries. Oracle: root = stream[start, position) <= 16257 bytes and decodes (exact consumption) as one "
     "directory; spill => only pointers, each [offset,offset+length) decodes as exactly one leaf whose first id is the pointer's id, "
     "concatenated leaves = input; no spill => root = input and = single-directory encoding; spill <=> single-directory encoding > 16257.",
-    require={"any": {"writes_judged": 400, "spilled": 100, "fits_in_root": 100, "steered.16257": 1, "steered.16258": 1,
+    require={"any": {"wide_lists_of_few_entries": 9, "boundary_archives_in_root": 6, "boundary_archives_spilled": 3, "writes_judged": 400, "spilled": 100, "fits_in_root": 100, "steered.16257": 1, "steered.16258": 1,
                      "steered.16384": 1, "bracketed.gzip": 1, "bracketed.brotli": 1, "bracketed.zstd": 1, "async_writes": 100,
                      "whole_archive_spills_judged": 6}})
 
@@ -348,11 +357,12 @@ reg("C17", "fault_enumeration",
     "cases = (archive, writer, crash point k): archives empty/1/small/medium/leaf-spilling, more than 2^24 bytes of tile data, uncompressed "
     "tiles with long zero runs in and at the END of the tile data; the object written is built with add_tile, or OPENED from an existing "
     "archive and written again unchanged, or opened, edited (metadata + one tile) and written; a quarter of the writes is preceded on "
-    "the same thread by the complete write of a sibling archive (same ids, sizes, settings, other bytes) and by failed writes; x 4 codecs x sync/async writer into a "
+    "the same thread by the complete write of a sibling archive (same ids, sizes, settings, other bytes) and by failed writes; archives "
+    "with tile ids beyond zoom 31; x 4 codecs x sync/async writer into a "
     "fresh recording stream; the N recorded stream operations (each write atomic) are replayed for EVERY k in [0,N] into a fresh "
     "image which is handed to PMTiles::from_bytes. Distinct by enumeration of (scenario,k); non-trivial = the image changed since "
     "k-1 (the k-th operation was a write). Oracle: Ok => image byte-identical to the complete archive.",
-    require={"any": {"crash_points_opened": 1000, "torn_images_rejected": 800, "complete_images_accepted": 100,
+    require={"any": {"writes_preceded_by_a_sibling_archive": 10, "crash_points_opened": 1000, "torn_images_rejected": 800, "complete_images_accepted": 100,
                      "scenarios_with_leaf_spill": 8, "async_scenarios": 50, "scenarios_rewriting_an_opened_archive": 16}},
     assumptions=["crash model: a prefix of the recorded write/seek operations took effect, each write call atomically; "
                  "torn individual writes are outside the property's quantifier"])
@@ -368,7 +378,7 @@ reg("C19", "exploration",
     "full opens and range-filtered opens with ordinary, empty and inverted ranges), the directory-tree writer (also for 4065...9000 "
     "entries without a codec), zero-length entries that share their predecessor's offset, empty adds in every Into<Vec<u8>> shape, "
     "and at directory level (also zero-length input). Each clause has a positive control. Distinct by fingerprint; all non-trivial.",
-    require={"any": {"serialiser_rejections": 1000, "parser_rejections": 1000, "parser_rejections_async": 1000, "empty_adds_refused": 1000,
+    require={"any": {"tree_writer_rejections": 1000, "serialiser_rejections": 1000, "parser_rejections": 1000, "parser_rejections_async": 1000, "empty_adds_refused": 1000,
                      "saves_equal_to_untouched_twin": 50, "non_object_metadata_refused": 200, "non_object_metadata_refused_async": 200,
                      "unknown_compression_refused_on_write": 16, "unknown_compression_refused_on_open": 32,
                      "unknown_compression_refused_on_partial_open": 400}})
@@ -378,12 +388,12 @@ reg("C20", "exploration",
     "gaps, tile data before directories/metadata, depth 1-3, mixed directories), one content under >= 2^17 ids, tiles above 2^24 bytes "
     "with other tiles stored behind them, one uncompressed leaf of more than 2^16 entries directly in front of the tile data, padding at "
     "exactly one site, two fifths of the archives through streams with short reads, point-query ranges, a lookup after one transient "
-    "stream fault, 4 codecs, sync/async (with Pending) readers, full and range-filtered "
+    "stream fault (bytes and byte ranges checked), two lookups of one reader-backed tile after an edit of the opened archive, 4 codecs, sync/async (with Pending) readers, full and range-filtered "
     "opens; every tile id (<= 500 tiles) or 500 sampled ids looked up, plus one absent id. Distinct by fingerprint of the archive "
     "bytes; non-trivial = >= 2 tiles. Oracle: interval arithmetic over the recorded read operations (bytes actually returned) "
     "against the sections declared by the independently parsed header: open reads only header/metadata/root/leaf bytes; a lookup "
     "reads exactly [tile offset, +length).",
-    require={"any": {"opens_within_sections": 300, "lookups_exact": 10000, "foreign_archives": 100, "library_written_archives": 100,
+    require={"any": {"lookups_exact_after_a_failed_lookup": 100, "lookups_exact_after_an_edit": 50, "archives_read_through_short_reads": 50, "partial_opens_selecting_one_id": 10, "opens_within_sections": 300, "lookups_exact": 10000, "foreign_archives": 100, "library_written_archives": 100,
                      "archives_with_leaves": 50, "partial_opens": 50, "async_opens": 50,
                      "layouts_with_tile_data_before_a_directory_or_metadata": 20}})
 
@@ -398,7 +408,7 @@ reg("C12", "exploration",
     "16255...16259 / 16384 bytes where both twins must take the same spill decision) and headers. Async code is driven "
     "by block_on over plain cursors and over the instrumented stream with short transfers and random Pending. Distinct by "
     "fingerprint of the input; non-trivial = >= 2 tiles/entries. Oracle: the synchronous twin.",
-    require={"any": {"writer_reader_combinations_equal": 200, "none_outputs_byte_identical": 50, "async_outputs_validated": 200,
+    require={"any": {"lookups_around_transient_faults_equal": 1000, "coordinate_lookups_compared": 5000, "write_directories_twins_with_leaf_size_doubling": 2, "writer_reader_combinations_equal": 200, "none_outputs_byte_identical": 50, "async_outputs_validated": 200,
                      "full_opens_equal": 300, "partial_opens_equal": 300, "entry_maps_equal": 300, "directories_equal": 200,
                      "write_directories_equal": 50, "headers_equal": 1000, "boundary_twins_equal": 6,
                      "rewrite_twins_equal": 300, "rewrite_twins_byte_identical": 50}},
@@ -413,7 +423,7 @@ reg("C13", "exploration",
     "(a transfer never crosses a multiple of 100/127/512/4096), metadata above 64 KiB; every Pending pattern over the first 12 polls of an async open+dump and write. "
     "Transfers are >= 1 byte, seeks are not fragmented, Interrupted is not injected. Distinct by enumeration (compositions, patterns) "
     "or fingerprint; all non-trivial. Oracle: the unfragmented twin in the same process (values for readers, bytes for writers).",
-    require={"any": {"compositions_executed": 30000, "dir_reads_equal": 30000, "dir_writes_equal": 30000, "codec_directory_schedules": 1000,
+    require={"any": {"rewrites_through_fragmented_reader_equal": 50, "archives_with_metadata_above_64_kib": 2, "compositions_executed": 30000, "dir_reads_equal": 30000, "dir_writes_equal": 30000, "codec_directory_schedules": 1000,
                      "header_schedules_equal": 900, "archive_reads_equal": 100, "archive_reads_equal_async": 100,
                      "archive_writes_equal": 100, "archive_writes_equal_async": 100, "archives_with_leaves": 4, "archives_above_16_mib": 1,
                      "pending_patterns_equal": 4096, "short_transfers": 100000, "pending_answers": 10000}},
@@ -467,7 +477,7 @@ reg("C14", "exploration",
     "that buffers (std / futures BufWriter), reads into an empty buffer are interspersed (their result is not judged); every composition of the write chunks for |x| <= 12; 'unknown' on all eight entry points. "
     "Distinct by fingerprint of payload; non-trivial = >= 2 bytes. Oracle: identity + upstream decoders with exact stream "
     "consumption + Python gzip for a sample of gzip outputs.",
-    require={"any": {"one_shot_inverse_ok": 400, "upstream_decodes_ok": 400, "foreign_streams_decoded": 400,
+    require={"any": {"async_streams_into_buffering_sink": 200, "sync_streams_into_buffering_sink": 200, "one_shot_inverse_ok": 400, "upstream_decodes_ok": 400, "foreign_streams_decoded": 400,
                      "streamed_writes_decode_upstream": 2000, "streamed_reads_equal": 2000, "async_streams": 800, "compositions": 1000,
                      "unknown_refused": 8, "python_gzip_files": 3, "payload.empty": 5, "payload.large": 5,
                      "payload.multi_megabyte": 3, "payload.extreme_ratio": 1, "failed_calls_before_valid_one": 300}},
@@ -513,11 +523,12 @@ reg("C16", "exploration",
     "writer, and a leaf-spilling superset shrunk by removals; archives with more than 2^17 distinct contents part of which recur later "
     "under non-adjacent ids (built sorted, shuffled, and a second time); one history writes behind a 20 000-byte prefix; reader-backed "
     "tiles are looked up between reopen and the remaining adds; unrelated and failing library calls between two builds of the same "
-    "archive; eight threads serialising the same archives at once vs alone; all outputs of one writer kind must be byte-identical (and sync == async where no codec is involved); the first three "
+    "archive; eight threads serialising the same archives at once vs alone; halves of one archive added by different threads; "
+    "all outputs of one writer kind must be byte-identical (and sync == async where no codec is involved); the first three "
     "outputs are reopened and re-written (rewrite idempotence, covers stored coordinates); plus a cross-process phase in which 6 "
     "separate OS processes (different hash-map seeds) serialise the same archives and the driver compares fingerprints. Distinct by "
     "fingerprint of the logical archive; non-trivial = >= 2 tiles. Oracle: pairwise byte comparison (no golden files).",
-    require={"any": {"logical_archives": 200, "history_pairs_byte_identical": 1500, "rewrites_identical": 600, "archives_with_leaves": 8,
+    require={"any": {"outputs_from_concurrent_threads_identical": 100, "archives_built_before_and_after_unrelated_calls": 8, "logical_archives": 200, "history_pairs_byte_identical": 1500, "rewrites_identical": 600, "archives_with_leaves": 8,
                      "xproc_processes": 6, "xproc_comparisons": 200,
                      "archives_with_more_than_131072_distinct_contents": 2, "codec.none": 30, "codec.gzip": 30, "codec.brotli": 30, "codec.zstd": 30}},
     phases=c16_phases,
